@@ -1,0 +1,13 @@
+//go:build !verif
+
+package crypto
+
+import "sync"
+
+const simEnabled = false
+
+func simReadRand(buf []byte) bool { return false }
+
+func simYield(point string) {}
+
+func simAcquire(point string, m *sync.Mutex) {}
